@@ -106,7 +106,7 @@ def run(ck):
         orders += [list(p) for p in itertools.permutations(idx, 2) if list(p) not in orders]          # every ordered pair of the whole pool
         orders += [idx[i:] + idx[:i] for i in range(len(idx))] + [idx[::-1]]
         if not quick:
-            orders += [list(p) for p in itertools.permutations(idx[6:], 4)]
+            orders += [list(p) for p in itertools.permutations(idx[6:13], 4)]           # 840 orders of four (the pool has grown: all of it would be 4*10^5)
     vp.write_ndjson(os.path.join(ck.work, "orders.ndjson"), orders)
     ck.run_harness(["purity-seq", "-in", "items.ndjson", "-orders", "orders.ndjson", "-out", "seq.ndjson"], timeout=1800)
     recs = vp.read_ndjson(os.path.join(ck.work, "seq.ndjson"))
